@@ -636,3 +636,25 @@ Proof.
   exists reset_witness_perm, 5%nat, 3%nat, 8%nat, reset_witness_steps, [false; false; false].
   vm_compute. repeat split; discriminate.
 Qed.
+
+(* ---------------------------------------------------------------- (4) *)
+(* sha2pc.GarblerRound3 additionally transmits BOTH labels of every output
+   wire (Round3Payload.OutputHints).  In the same symbolic execution that
+   transcript is not safe: the two hints of an output wire are R apart. *)
+Definition output_hints (gwf : list wire) (outs : list nat) : list N :=
+  flat_map (fun o => [L0 (nth o gwf w0); L1 (nth o gwf w0)]) outs.
+
+Definition sym_transcript_with_hints (perm : nat -> bool) (c : circuit) (x : list bool) : list N :=
+  sym_transcript perm c x ++ output_hints (fst (sym_garble perm c)) (output_wires c).
+
+Lemma sha2pc_output_hints_refuted :
+  exists perm c x, wf c = true /\
+    r_pairs Rsym (sym_transcript perm c x) = [] /\
+    r_pairs Rsym (sym_transcript_with_hints perm c x) <> [].
+Proof.
+  exists (fun n => Nat.odd n),
+    (mkCircuit 8 2 2 [mkGate 0 1 2 XOR; mkGate 2 2 3 AND; mkGate 3 0 4 OR;
+                      mkGate 4 0 2 INV; mkGate 2 1 5 XNOR; mkGate 5 4 6 AND;
+                      mkGate 6 3 7 OR]), [true; false].
+  vm_compute. repeat split; discriminate.
+Qed.
